@@ -10,7 +10,7 @@ Next == UNCHANGED c
 Spec == Init /\ [][Next]_c
 Bad(r) == r.status \in {"panic", "injecterr"}
 Fails(o) == IF "runs" \notin DOMAIN o THEN <<[store |-> "both", why |-> o.outcome, msg |-> "", msgk |-> "", kf |-> KF_C07(o, o)]>>
-            ELSE LET f(r) == [store |-> r.store, why |-> r.status, msg |-> r.msg, msgk |-> r.msgk, kf |-> KF_C07(o, r)] IN
+            ELSE LET f(r) == [store |-> r.store, why |-> r.status, msg |-> (IF "msg" \in DOMAIN r THEN r.msg ELSE ""), msgk |-> (IF "msgk" \in DOMAIN r THEN r.msgk ELSE ""), kf |-> KF_C07(o, r)] IN
                  SelectSeq([i \in DOMAIN o.runs |-> f(o.runs[i])], LAMBDA x : x.why \in {"panic", "injecterr"})
 Report == Fails(Obs[c]) = <<>> \/ PrintT(<<"FAIL", ToJson([c |-> c, src |-> IF "src" \in DOMAIN Obs[c] THEN Obs[c].src ELSE "?", fails |-> Fails(Obs[c])])>>)
 ==============================================================================
